@@ -98,6 +98,8 @@ def welltyped(t, schema_of):
                 return "float" if "float" in (l, r) else "int"
             if l in ("datetime", "date") and r == "duration" and n[1] in ("add", "sub"):
                 return l
+            if l == "str" and r == "str" and n[1] == "add":
+                return "str"     # string `add`: only generated for backends that accept it
             return False
         if k == "call":
             args = [ty(a) for a in n[2]]
